@@ -216,8 +216,9 @@ def replay_history(job):
             svec = H.sol_vec(net)
         nums, bad = H.count_results(net, thermal, hydraulic=op["mode"] != "heat")
         oc = pf.oclass(outcome)
-        if "Converged flag not set" in outcome or (op["mode"] == "heat" and ("user_pf_options" in outcome or "hyd_flag" in outcome)):
-            oc = "usage_error"       # thermal-only run requested without a stored hydraulic solution
+        if "Converged flag not set" in outcome or (op["mode"] == "heat" and ("user_pf_options" in outcome or "hyd_flag" in outcome)) \
+                or (op["mode"] == "heat" and "sol_vec" not in kw and outcome.startswith("raised:")):
+            oc = "usage_error"       # thermal-only run requested without a stored hydraulic solution / without a solution vector
         cases.append({"id": "%s.%d" % (job["id"], k), "kind": "call", "net": job["net"], "op": op,
                       "events": project_events(ev), "outcome": outcome if outcome in ("returned", "PipeflowNotConverged") else oc,
                       "oclass": oc, "sig": "%s|%s|%s" % (oc, op["mode"], op["method"]), "flag_converged": bool(net.converged),
